@@ -95,9 +95,6 @@ def wopen : PC → Bool
   | .preSD | .inSD | .preEvOk | .inRead | .preEvData | .afterData | .preEvClosed | .preClose => true
   | _ => false
 
-/-- pc after the error hook / error event -/
-def afterErr (m : Mode) : PC := if m.held then .preRel else .finishing
-
 /-- one action of an open_connection task; `free`: its address' semaphore has a free slot.
     Returns the new task state and the commands the layer returned (if the action is a server_event). -/
 def stepS (c : Conn) (a : Act) (free : Bool) : Option (Conn × List Cmd) :=
@@ -115,8 +112,14 @@ def stepS (c : Conn) (a : Act) (free : Bool) : Option (Conn × List Cmd) :=
   | .inSem, .semcancel => some ({ c with pc := .preSE .canc }, [])
   | .preSE m, .hook .se => some ({ c with pc := .inSE m, nSE := c.nSE + 1 }, [])
   | .inSE m, .hookret .ok _ => some ({ c with pc := .preEvErr m }, [])
-  | .inSE m, .hookret .cancel _ => some ({ c with pc := afterErr m }, [])
-  | .preEvErr m, .ev .cerr cmds => some ({ c with pc := afterErr m }, cmds)
+  | .inSE .kill, .hookret .cancel _ => some ({ c with pc := .finishing }, [])
+  | .inSE .canc, .hookret .cancel _ => some ({ c with pc := .finishing }, [])
+  | .inSE .heldErr, .hookret .cancel _ => some ({ c with pc := .preRel }, [])
+  | .inSE .heldCanc, .hookret .cancel _ => some ({ c with pc := .preRel }, [])
+  | .preEvErr .kill, .ev .cerr cmds => some ({ c with pc := .finishing }, cmds)
+  | .preEvErr .canc, .ev .cerr cmds => some ({ c with pc := .finishing }, cmds)
+  | .preEvErr .heldErr, .ev .cerr cmds => some ({ c with pc := .preRel }, cmds)
+  | .preEvErr .heldCanc, .ev .cerr cmds => some ({ c with pc := .preRel }, cmds)
   | .inConn, .connret .ok => some ({ c with pc := .preSD }, [])
   | .inConn, .connret .err => some ({ c with pc := .preSE .heldErr }, [])
   | .inConn, .connret .cancel => some ({ c with pc := .preSE .heldCanc }, [])
